@@ -1099,6 +1099,13 @@ class HTTPResponse(BaseHTTPResponse):
                 if data:
                     yield data
 
+            # The last read may have closed the file object without reaching
+            # the end-of-body flush: the decoder still has to report an
+            # incomplete stream (and give back what it holds).
+            data = self.read(amt=amt, decode_content=decode_content)
+            if data:
+                yield data
+
     # Overrides from io.IOBase
     def readable(self) -> bool:
         return True
